@@ -8,6 +8,7 @@
 #include <ompl/control/PathControl.h>
 #include <ompl/control/SimpleDirectedControlSampler.h>
 #include <ompl/control/spaces/RealVectorControlSpace.h>
+#include <ompl/control/spaces/DiscreteControlSpace.h>
 #include <ompl/control/planners/rrt/RRT.h>
 #include <ompl/control/planners/sst/SST.h>
 #include <ompl/control/planners/est/EST.h>
@@ -553,14 +554,210 @@ static std::vector<CCfg> configs(const std::string &planner, bool thorough)
     return v;
 }
 
+// ---- discrete control space with a NON-ZERO lower bound: controls are the integers -2..2 (four unit moves and a diagonal crawl); the
+// library's own DiscreteControlSampler draws them (through hook H1). Same clauses as above, checked by a second small oracle.
+static void discreteMove(int k, double &dx, double &dy)
+{
+    switch (k)
+    {
+        case -2: dx = -1, dy = 0; break;
+        case -1: dx = 0, dy = -1; break;
+        case 0: dx = 0.5, dy = 0.5; break;
+        case 1: dx = 0, dy = 1; break;
+        default: dx = 1, dy = 0; break;
+    }
+}
+static std::vector<vc::Point> executeDiscrete(const std::string &planner, const std::string &mapName, const std::map<size_t, int> &dev,
+                                              const std::function<void(const std::string &, const std::string &)> &fail, uint64_t *obsOut, long *evalsOut)
+{
+    const Map &map = mapByName(mapName);
+    Lattice lat(map, false);
+    auto space = std::make_shared<ob::RealVectorStateSpace>(2);
+    ob::RealVectorBounds b(2);
+    b.setLow(0);
+    b.setHigh(0, map.W());
+    b.setHigh(1, map.H());
+    space->setBounds(b);
+    const Lattice *L = &lat;
+    space->setStateSamplerAllocator([L](const ob::StateSpace *sp) { return std::make_shared<LatSampler>(sp, *L); });
+    const int LO = -2, HI = 2;
+    auto cspace = std::make_shared<oc::DiscreteControlSpace>(space, LO, HI);
+    auto si = std::make_shared<oc::SpaceInformation>(space, cspace);
+    auto valid = [&map](double x, double y) { return !(x < 0 || y < 0 || x > map.W() || y > map.H()) && map.free((int)std::floor(x), (int)std::floor(y)); };
+    si->setStateValidityChecker([valid](const ob::State *s) {
+        auto *v = s->as<ob::RealVectorStateSpace::StateType>()->values;
+        return valid(v[0], v[1]);
+    });
+    si->setStatePropagator([](const ob::State *from, const oc::Control *c, double dt, ob::State *to) {
+        double dx, dy;
+        discreteMove(c->as<oc::DiscreteControlSpace::ControlType>()->value, dx, dy);
+        const double *f = from->as<ob::RealVectorStateSpace::StateType>()->values;
+        double x = f[0] + dx * dt, y = f[1] + dy * dt;
+        double *t = to->as<ob::RealVectorStateSpace::StateType>()->values;
+        t[0] = x;
+        t[1] = y;
+    });
+    const double step = 0.25;
+    si->setPropagationStepSize(step);
+    si->setMinMaxControlDuration(1, 3);
+    si->setStateValidityCheckingResolution(0.02);
+    vc::Oracle setupOracle;
+    setupOracle.salt = 77;
+    ob::ProblemDefinitionPtr pdef;
+    ob::PlannerPtr pl;
+    {
+        vc::Install i(setupOracle);
+        si->setup();
+        pdef = std::make_shared<ob::ProblemDefinition>(si);
+        ob::ScopedState<> s(space), g(space);
+        s[0] = map.sx + 0.263;
+        s[1] = map.sy + 0.257;
+        g[0] = map.gx + 0.763;
+        g[1] = map.gy + 0.757;
+        pdef->addStartState(s);
+        pdef->setGoalState(g, 0.4);
+        if (planner == "RRT")
+            pl = std::make_shared<oc::RRT>(si);
+        else if (planner == "EST")
+            pl = std::make_shared<oc::EST>(si);
+        else if (planner == "KPIECE1")
+            pl = std::make_shared<oc::KPIECE1>(si);
+        else if (planner == "SST")
+            pl = std::make_shared<oc::SST>(si);
+        else
+            pl = std::make_shared<oc::PDST>(si);
+        pl->setProblemDefinition(pdef);
+        pl->setup();
+    }
+    vc::Oracle o;
+    o.dev = dev;
+    o.horizon = 400000;
+    long calls = 0;
+    {
+        vc::Install i(o);
+        try
+        {
+            ob::PlannerTerminationCondition ptc([&] { return ++calls > 70; });
+            pl->solve(ptc);
+        }
+        catch (vc::Horizon &)
+        {
+            fail("C02|draw-horizon|discrete|" + planner, "more than 400000 random draws in one solve()");
+        }
+    }
+    vf::Hash obs;
+    for (auto &sol : pdef->getSolutions())
+    {
+        auto *path = dynamic_cast<oc::PathControl *>(sol.path_.get());
+        if (!path || path->getStateCount() == 0 || path->getControlCount() + 1 != path->getStateCount())
+        {
+            fail("C02|counts|discrete|" + planner, "not a control path with n states and n-1 controls");
+            continue;
+        }
+        size_t n = path->getStateCount();
+        const double *s0 = path->getState(0)->as<ob::RealVectorStateSpace::StateType>()->values;
+        if (!space->equalStates(path->getState(0), pdef->getStartState(0)) || !valid(s0[0], s0[1]))
+            fail("C02|not-at-start|discrete|" + planner, "path does not start at the (valid) start state");
+        for (size_t i = 0; i + 1 < n; ++i)
+        {
+            int k = path->getControl(i)->as<oc::DiscreteControlSpace::ControlType>()->value;
+            double dur = path->getControlDuration(i);
+            obs.add(k);
+            obs.addd(dur);
+            if (k < LO || k > HI)
+            {
+                fail("C02|control-out-of-bounds|discrete|" + planner, "control " + std::to_string(i) + " has the value " + std::to_string(k) + " outside [" + std::to_string(LO) + "," + std::to_string(HI) + "]");
+                continue;
+            }
+            double stepsD = dur / step;
+            long steps = std::lround(stepsD);
+            if (std::fabs(stepsD - steps) > 1e-9 || steps < 1)
+                fail("C02|duration-not-whole-steps|discrete|" + planner, "duration " + vf::jnum(dur) + " is not a positive whole number of steps of " + vf::jnum(step));
+            const double *f = path->getState(i)->as<ob::RealVectorStateSpace::StateType>()->values;
+            double x = f[0], y = f[1], dx, dy;
+            discreteMove(k, dx, dy);
+            for (long q = 0; q < steps; ++q)
+            {
+                x += dx * step;
+                y += dy * step;
+                if (!valid(x, y))
+                {
+                    fail("C02|invalid-propagation-step|discrete|" + planner, "replaying control " + std::to_string(i) + ", step " + std::to_string(q + 1) + " of " + std::to_string(steps) + " lands on an invalid state");
+                    break;
+                }
+            }
+            const double *t = path->getState(i + 1)->as<ob::RealVectorStateSpace::StateType>()->values;
+            if (std::fabs(t[0] - x) > 1e-9 || std::fabs(t[1] - y) > 1e-9)
+                fail("C02|replay-mismatch|discrete|" + planner, "replaying control " + std::to_string(i) + " ends at (" + vf::jnum(x) + "," + vf::jnum(y) + "), the path says (" + vf::jnum(t[0]) + "," + vf::jnum(t[1]) + ")");
+        }
+        bool inGoal = pdef->getGoal()->isSatisfied(path->getState(n - 1));
+        if (!sol.approximate_ && !inGoal)
+            fail("C02|exact-not-in-goal|discrete|" + planner, "solution not flagged approximate ends outside the goal region");
+    }
+    if (obsOut)
+        *obsOut = obs.h;
+    if (evalsOut)
+        *evalsOut = calls;
+    pl.reset();
+    return o.trace;
+}
+static void runDiscrete(const std::string &planner, const vf::Args &a, vf::Report &rep)
+{
+    for (const char *map : {"empty4", "wallgap4"})
+    {
+        vg::Group G;
+        G.onChildStart = [] { vf::virtualSleep() = true; };
+        std::string m = map;
+        auto body = [&](vf::Report &r) {
+            auto run = [&](const std::map<size_t, int> &dev) {
+                std::string ej = "{\"discrete\":true,\"planner\":" + vf::jesc(planner) + ",\"map\":" + vf::jesc(m) + ",\"dev\":" + vc::devJson(dev) + "}";
+                G.announce(ej);
+                alarm(10);
+                uint64_t obs = 0;
+                long evals = 0;
+                auto tr = executeDiscrete(planner, m, dev, [&](const std::string &k, const std::string &w) { r.fail(k, w, ej); }, &obs, &evals);
+                alarm(0);
+                r.evaluations++;
+                r.transitions += evals;
+                r.outcomes.insert(obs);
+                vf::Hash h;
+                h.adds(ej);
+                if (!dev.empty())
+                    r.nontrivial.insert(h.h);
+                G.sh->done++;
+                return tr;
+            };
+            vc::DBE dbe;
+            dbe.D = a.thorough() ? 2 : 1;
+            dbe.N = a.thorough() ? 40 : 30;
+            dbe.expired = [&] { return a.expired(); };
+            dbe.explore(run);
+            r.states++;
+        };
+        vg::Outcome out = G.run(body, rep, 300);
+        if (!out.clean)
+        {
+            rep.exhaustive = false;
+            rep.caps.push_back("child died in the discrete-control job of " + planner + " / " + m + ": " + out.current);
+        }
+    }
+}
+
 #ifndef C02_NO_MAIN
 int main(int argc, char **argv)
 {
     ompl::msg::setLogLevel(ompl::msg::LOG_NONE);
     vf::Harness H;
     H.property = "C02";
-    H.jobs = [](const vf::Args &) { return std::vector<std::string>{"RRT", "RRTintermediate", "SST", "EST", "KPIECE1", "PDST", "SyclopRRT", "SyclopEST"}; };
+    H.jobs = [](const vf::Args &) { return std::vector<std::string>{"RRT", "RRTintermediate", "SST", "EST", "KPIECE1", "PDST", "SyclopRRT", "SyclopEST", "discrete-RRT", "discrete-EST", "discrete-KPIECE1", "discrete-PDST", "discrete-SST"}; };
     H.run = [](const std::string &job, const vf::Args &a, vf::Report &rep) {
+        if (job.substr(0, 9) == "discrete-")
+        {
+            runDiscrete(job.substr(9), a, rep);
+            rep.rule = "discrete control space {-2..2} (lower bound != 0) sampled by the library's DiscreteControlSampler: every execution with <= D deviations among the first N choice points; "
+                       "controls in bounds, whole-step durations, step-by-step replay through an independent copy of the system";
+            return;
+        }
         const std::string planner = job;
         int jobCrashes = 0;
         for (auto &cfg : configs(planner, a.thorough()))
@@ -681,6 +878,20 @@ int main(int argc, char **argv)
                            "replayed states must match within 1e-9 (they match bitwise in practice)", "controls are drawn from a 12/16-element set that includes the bounds"};
     };
     H.replay = [](const vf::JV &v) {
+        if (v.has("discrete"))
+        {
+            std::map<size_t, int> dev;
+            for (auto &d : v["dev"].a)
+                dev[(size_t)d[0].i()] = (int)d[1].i();
+            bool failed = false;
+            vf::virtualSleep() = true;
+            alarm(60);
+            executeDiscrete(v["planner"].s, v["map"].s, dev, [&](const std::string &k, const std::string &w) {
+                printf("%s: %s\n", k.c_str(), w.c_str());
+                failed = true;
+            }, nullptr, nullptr);
+            return failed;
+        }
         Exec e{CCfg::fromJson(v), {}};
         for (auto &d : v["dev"].a)
             e.dev[(size_t)d[0].i()] = (int)d[1].i();
